@@ -111,7 +111,39 @@ def main(out: str) -> None:
         transforms_owner = owner_of(G, "TRANSFORMS")
         json_parts_definers = [cname(b) for b in G.__mro__ if "SUPPORTED_JSON_PATH_PARTS" in b.__dict__]
 
+        # naming facts for the C01 closure rules: which class a function name is read as, under which name a class is printed
+        def builder_class(b):
+            return getattr(b, "__self__", None) if getattr(b, "__name__", "") == "from_arg_list" and isinstance(getattr(b, "__self__", None), type) else None
+
+        def render_name(cls):
+            tr = G.TRANSFORMS.get(cls)
+            if tr is None:
+                if getattr(G, cls.key + "_sql", None) is not None:
+                    return ["method", None]
+                if issubclass(cls, exp.Func):
+                    names = cls.sql_names()
+                    return ["default", names[0] if names else None]
+                return ["none", None]
+            code = getattr(tr, "__code__", None)
+            if getattr(tr, "__qualname__", "").startswith("rename_func.<locals>") and code is not None and "name" in code.co_freevars:
+                val = tr.__closure__[code.co_freevars.index("name")].cell_contents
+                return ["rename", val if isinstance(val, str) else None]
+            return ["custom", None]
+
+        functions = {}
+        func_classes = {}
+        for fname, b in getattr(P, "FUNCTIONS", {}).items():
+            bc = builder_class(b)
+            functions[str(fname)] = bc.__name__ if bc is not None else None
+            if bc is not None:
+                func_classes[bc.__name__] = bc
+        func_render = {cn_: render_name(c_) for cn_, c_ in func_classes.items()}
+        type_mapping = {k.name: v for k, v in getattr(G, "TYPE_MAPPING", {}).items() if isinstance(k, enum.Enum) and isinstance(v, str)}
+
         dialects[name] = {
+            "functions": functions,
+            "func_render": func_render,
+            "type_mapping": type_mapping,
             "class": cname(d),
             "mro": [cname(b) for b in d.__mro__ if b is not object],
             "tokenizer_class": cname(T),
@@ -239,6 +271,7 @@ def main(out: str) -> None:
             b.__name__: list(getattr(b, "__slots__", ())) for b in exp.Expression.__mro__ if b is not object
         },
         "expr_classes": expr_classes,
+        "dtype_values": {m.name: m.value for m in exp.DType},
         "dialects": dialects,
         "gen_handlers": gen_handlers,
         "shared_exprs": shared_exprs,
